@@ -32,6 +32,29 @@ theorem aset_aset {α} (l : List (Nat × α)) (i : Nat) (a b : α) : aset (aset 
     · simp [aset, e]
     · simp [aset, e, ih]
 
+theorem eraseCell_ownedG (s : St) (i c : Nat) : (eraseCell s i c).ownedG = s.ownedG := by
+  unfold eraseCell; split <;> rfl
+
+theorem sweep_ownedG (s : St) (i : Nat) : (sweep s i).ownedG = s.ownedG := by
+  unfold sweep; split
+  · rfl
+  · simp only [nullConnsList_ownedG]; rfl
+
+theorem unrefExec_ownedG (s : St) (i : Nat) : (unrefExec s i).ownedG = s.ownedG := by
+  unfold unrefExec; split
+  · rfl
+  · simp only; split
+    · rw [sweep_ownedG]; rfl
+    · rfl
+
+theorem epilogue_ownedG (s : St) (i m : Nat) : (epilogue s i m).ownedG = s.ownedG := by
+  unfold epilogue
+  simp only
+  split
+  · rw [unrefExec_ownedG, eraseCell_ownedG]
+  · show (unrefExec (eraseCell s i m) i).ownedG = s.ownedG
+    rw [unrefExec_ownedG, eraseCell_ownedG]
+
 theorem epilogue_core {s : St} {i m : Nat} {im2 : Impl} (hi : aget s.impls i = some im2) :
     (epilogue s i m).impls = aset s.impls i (epiImpl im2 m) ∧ (epilogue s i m).G = s.G ∧
     (epilogue s i m).S = s.S ∧ (epilogue s i m).err = s.err ∧ (epilogue s i m).next = s.next := by
